@@ -69,7 +69,7 @@ def check(col, prog, tier, profile, fixture=None):
     fk = util.fkey
     names = [s[0] for s in SEARCHES]
     col.rule("R1" + sfx, "push_at(own node) precedes every recursive call in both searches", floor=4)
-    col.rule("R3" + sfx, "geometry of the recursive calls of both searches", floor=4)
+    col.rule("R3" + sfx, "geometry of the recursive calls of both searches; push_at hands over (node, left child, right child)", floor=5)
     col.rule("R4" + sfx, "search ranges stay inside the node range with one end pinned (inductive)", floor=6)
     col.rule("B1" + sfx, "the predicate sees merge(carry,node) / merge(node,carry) only under l==vl && r==vr", floor=2)
     col.rule("B2" + sfx, "carry discipline: false-exit returns the merged value; second child gets the first child's carry; its result is returned unchanged", floor=6)
@@ -78,8 +78,15 @@ def check(col, prog, tier, profile, fixture=None):
     col.rule("B5" + sfx, "entries: identity carry, root (0,0,n-1), (l,n-1)/(0,r); built-in Defaults are merge identities", floor=8)
     col.rule("B6" + sfx, "searches write the tree only through push_at", floor=2)
 
+    col.rule("R7" + sfx, "built-in lazy items the searches run over: push applies md to both children then resets; modify updates v and md; merge md=default", floor=12)
+    col.rule("R8" + sfx, "Combinator forwards every method component-wise", floor=7)
+    from . import c01_items
+
+    c01_items.check_items(col, crate, sfx)
     c01.rule_push_before_descend(col, R, "R1", names, sfx)
     c01.rule_geometry(col, R, "R3", names, sfx)
+    # the searches descend through push_at: a pending modification must reach the children in order (seeded change C02-j)
+    c01.rule_helpers_geometry(col, R, "R3", sfx, only={"push_at"})
     c01.rule_routing(col, R, "R4", sfx, only=set(names))
 
     for nm, direction in SEARCHES:
